@@ -247,9 +247,9 @@ func seqRunM(K int, light, minimal bool) {
 func Verif_C01_event_sequences() {
 	K := 4
 	if verifTier() >= 1 {
-		K = 6
+		K = 5
 	}
-	verifNote("systematic environment event sequences on a real active peer from the real start state: at each of K steps (4 quick / 6 thorough) one of the actions possible in the current state — dial succeeds / is refused, a new inbound connection (at most 2), on any live connection {valid OPEN, KEEPALIVE, Cease, FIN}, expiry of any armed timer (idle-hold, connect-retry, hold, start-up delay) — or 'stop now' is taken (symbolic choice over the enumerated set; so peer.stop() is exercised in every state reachable within K steps), the system runs to quiescence (base schedule), and the callback-grammar monitors plus manager invariants (established excludes the other FSM, not both OpenConfirm, hold-down implies no FSM, every connection owned by a live FSM or closed, an active peer that is not held down always has an FSM) are asserted; finally stop")
+	verifNote("systematic environment event sequences on a real active peer from the real start state: at each of K steps (4 quick / 5 thorough) one of the actions possible in the current state — dial succeeds / is refused, a new inbound connection (at most 2), on any live connection {valid OPEN, KEEPALIVE, Cease, FIN}, expiry of any armed timer (idle-hold, connect-retry, hold, start-up delay) — or 'stop now' is taken (symbolic choice over the enumerated set; so peer.stop() is exercised in every state reachable within K steps), the system runs to quiescence (base schedule), and the callback-grammar monitors plus manager invariants (established excludes the other FSM, not both OpenConfirm, hold-down implies no FSM, every connection owned by a live FSM or closed, an active peer that is not held down always has an FSM) are asserted; finally stop")
 	seqRun(K, true)
 }
 
